@@ -16,6 +16,10 @@ Emit == LET R == CaseRecs(dt) IN
 EmitVS == /\ Assert(RoundTripLaw(dt), <<"the round trip law fails in the model for", dt>>)
           /\ PrintT(<<"VS", ToJson([dt |-> dt, vals |-> SetToSeq({[v |-> v, j |-> Export(dt, v)] : v \in VS(dt)})])>>)
 
+(* C02: for every command of the catalogue the calls (argument value, result value) to perform *)
+EmitCalls == /\ Assert(CmdRoundTripLaw(dt), <<"the round trip law fails in the model for the command", dt>>)
+             /\ PrintT(<<"CALLS", ToJson([dt |-> dt, calls |-> SetToSeq(CmdCalls(dt))])>>)
+
 (* C03: for the type dt = a, the allowed verdicts of a.compatible(b) for every b of the catalogue *)
 EmitPairs == LET all == TypeSeq(Tier) IN
     /\ Assert(\A i \in 1 .. Len(all) : (~HasLimit(dt) /\ ~HasLimit(all[i]) /\ Supported(dt, all[i])) => Subset(dt, all[i]),
